@@ -422,7 +422,7 @@ func (g *G) classes() []genClass {
 	case "C18":
 		return []genClass{{6, grid}, {2, gridFault}, {1, chain}, {1, sie}, {2, status}, {1, inval}, {1, vary}}
 	case "C06":
-		return []genClass{{4, grid}, {4, status}, {1, faults}, {1, inval}}
+		return []genClass{{4, grid}, {4, status}, {1, faults}, {1, inval}, {1, func(g *G, id string) *History { return g.genMerge304(id) }}}
 	case "C10":
 		debug := func(f func(g *G, id string) *History) func(g *G, id string) *History {
 			return func(g *G, id string) *History {
@@ -441,7 +441,7 @@ func (g *G) classes() []genClass {
 	case "C07":
 		return []genClass{{7, inval}, {2, urls}, {2, func(g *G, id string) *History { return g.genInvalRace(id) }}, {2, func(g *G, id string) *History { return g.genLocInval(id) }}}
 	case "C08":
-		return []genClass{{4, vary}, {2, grid}, {3, chain}, {2, inval}, {1, swrInval}, {1, func(g *G, id string) *History { return g.genRevalRace(id) }}}
+		return []genClass{{4, vary}, {2, grid}, {3, chain}, {2, inval}, {1, swrInval}, {1, func(g *G, id string) *History { return g.genRevalRace(id) }}, {1, func(g *G, id string) *History { return g.genMerge304(id) }}}
 	case "C19":
 		return []genClass{{3, vary}, {1, inval}, {2, func(g *G, id string) *History { return g.genRepeat(id) }}, {1, swrInval}}
 	case "C16":
